@@ -39,6 +39,8 @@
 #include <soundswallower/err.h>
 #include <soundswallower/fsg_model.h>
 #include <soundswallower/fsg_search.h>
+#include <soundswallower/fsg_lextree.h>
+#include <soundswallower/fsg_history.h>
 #include <soundswallower/lattice.h>
 #include <soundswallower/search_module.h>
 
@@ -491,6 +493,36 @@ static void set_gram(decoder_t *d, const char *file, int fsg)
     if (fsg) { fsg_model_t *m = fsg_model_readfile(path, decoder_logmath(d), config_float(decoder_config(d), "lw")); if (!m || decoder_set_fsg(d, m) < 0) { printf("FAIL fsg %s\n", path); exit(1); } }
     else if (decoder_set_jsgf_file(d, path) < 0) { printf("FAIL grammar %s\n", path); exit(1); }
 }
+/* (C01) the invariant the word-arc contracts carry through the lextree (contracts/fsg_wordarc.ghost.h, HIST_SRC), checked on
+ * the live search: every history id held by an active HMM of the lextree of grammar state s names a history entry whose
+ * arc enters s (entry 0 / no arc: the start state) */
+static void check_hist_src(decoder_t *d)
+{
+    fsg_search_t *fs = (fsg_search_t *)d->search;
+    int s, k, bad = 0;
+    long slots = 0;
+    if (!fs || strcmp(search_module_type(fs), PS_SEARCH_TYPE_FSG) != 0 || !fs->lextree) return;
+    for (s = 0; s < fsg_model_n_state(fs->fsg); s++) {
+        fsg_pnode_t *pn;
+        for (pn = fs->lextree->alloc_head[s]; pn; pn = pn->alloc_next) {
+            hmm_t *h = &pn->hmm;
+            if (hmm_frame(h) < fs->frame) continue;          /* not active */
+            for (k = 0; k <= hmm_n_emit_state(h); k++) {
+                int32 sc = k < hmm_n_emit_state(h) ? hmm_score(h, k) : hmm_out_score(h);
+                int32 id = k < hmm_n_emit_state(h) ? hmm_history(h, k) : hmm_out_history(h);
+                fsg_hist_entry_t *e; int dest;
+                if (!(sc BETTER_THAN WORST_SCORE)) continue;
+                slots++;
+                if (id < 0 || id >= fsg_history_n_entries(fs->history)) { bad++; continue; }
+                e = fsg_history_entry_get(fs->history, id);
+                dest = e->fsglink ? e->fsglink->to_state : fsg_model_start_state(fs->fsg);
+                if (dest != s) bad++;
+            }
+        }
+    }
+    cases++;
+    if (bad) { char a[40], b[40]; snprintf(a, 40, "%d", bad); snprintf(b, 40, "%ld", slots); failf("C01", "%s of %s live back-pointers in the lextree name a history entry that does not enter the node's grammar state", a, b); }
+}
 enum { ONE_CALL, BLOCKS, FLOAT32, BLOCKS_EARLY, FULL_POLL };
 static void decode(decoder_t *d, int slot, int mode)
 {
@@ -540,6 +572,7 @@ static void decode(decoder_t *d, int slot, int mode)
                 if (a2 != NULL) failf("C04", "an alignment request that failed returns an alignment when repeated without new audio (half-built alignment cached)%s%s", NULL, NULL);
             }
         }
+        if (want("C01")) check_hist_src(d);
         /* partial result: the label sequence of some path leaving the start state */
         ph = decoder_hyp(d, NULL);
         if (ph && active_fsg(d) && want("C01")) {
